@@ -372,7 +372,7 @@ def check(prop, tier, seed):
     return 1 if new else 0
 
 
-ALL_CLAUSES = ['C01.incl', 'C02.incl', 'C02.allornone', 'C02.recovery', 'C03.green', 'C06.gate', 'C08.ff',
+ALL_CLAUSES = ['C05.system', 'C01.incl', 'C02.incl', 'C02.allornone', 'C02.recovery', 'C03.green', 'C06.gate', 'C08.ff',
                'C08.foreign', 'C08.destdel', 'C08.noloss', 'C10.norepeat', 'C10.converge',
                'C10.cmdonce', 'C10.fresh', 'C12.held.integrated', 'C12.held.merged',
                'C12.held.merged_after_queued', 'C12.nocomment', 'C12.lifted', 'C15.refuse.untouched',
